@@ -37,8 +37,9 @@ Proof.
   - unfold rinv, new_reader. cbn [bitems rkey ridx rchunk rcount]. repeat split; try lia.
     intros _ _ E. inversion E.
   - exact Hsz.
-  - exists datas, n. unfold mu, remaining, new_reader in *. cbn [rchunk skipn] in *.
-    repeat split; try assumption. lia.
+  - exists datas, n. unfold mu, remaining, new_reader in H2, H3, H4. cbn [rchunk skipn] in H2, H3, H4.
+    split; [exact H1|]. split; [exact H3|]. split; [exact H4|]. split; [|exact H5].
+    rewrite Nat.sub_0_r in H2. exact H2.
 Qed.
 Print Assumptions C31_read.
 
